@@ -20,7 +20,7 @@ RULE = ("ALL patterns up to length L (quick 3, thorough 4) over the 5 slot kinds
 ASSUMPTIONS = ["R6 (vlib/ref/lr.py + patterns.py): textbook canonical LR(1) with the documented prefix rule, on the slot grammar as documented in macro.cpp's comment/structure",
                "R3 decides whether the generated use really derives from the pattern"]
 
-FILL = {"<ID>": ["u"], "<INT>": ["7"], "<V>": ["RUN", "f", "WITH", "u", ",", "7", "END"], "<ARGS>": ["u", ",", "7"],
+FILL = {"RUN": ["RUN"], "<ID>": ["u"], "<INT>": ["7"], "<V>": ["RUN", "f", "WITH", "u", ",", "7", "END"], "<ARGS>": ["u", ",", "7"],
         "<P>": ["u", ":=", "7", ";", "STOP"]}
 NON_LR = 7
 
@@ -39,6 +39,11 @@ def plan(tier, seed):
     n = 2000 if tier == "quick" else 40000
     for i in range(n // 250):
         specs.append({"kind": "rand", "seed": seed, "chunk": i, "n": 250})
+    # a slot, a separator, then two more symbols from the whole language vocabulary: is what follows the slot a possible
+    # continuation of the slot itself?
+    for slot in CONT_SLOTS:
+        for sep in CONT_SEPS:
+            specs.append({"kind": "cont", "slot": slot, "sep": sep, "deep": tier != "quick"})
     n = 1600 if tier == "quick" else 32000
     for i in range(n // 100):
         specs.append({"kind": "sets", "seed": seed, "chunk": i, "n": 100})
@@ -92,7 +97,21 @@ def work_sets(spec, part):
             part["samples"].append({"source": text, "non_linear_errors": [e[1:4] for e in o["app_errors"]], "output": " ".join(t[1] for t in o["out"])})
 
 
+CONT_SLOTS = ["<ARGS>", "<P>", "<V>", "<ID>"]
+CONT_SEPS = [",", ";", ":", ":=", "WITH", "DO"]
+EXT = SYMS + ["RUN", "WHILE", "GOTO", "IF", "STOP", "=", "!= 0"]
+
+
 def pats(spec):
+    if spec["kind"] == "cont":
+        for a in EXT:
+            yield [spec["slot"], spec["sep"], a]
+            for b in EXT:
+                yield [spec["slot"], spec["sep"], a, b]
+                if spec["deep"]:
+                    for lead in ("a", "("):
+                        yield [lead, spec["slot"], spec["sep"], a, b]
+        return
     if spec["kind"] == "exh":
         for n in range(0, spec["rest"] + 1):
             for w in itertools.product(SYMS, repeat=n):
